@@ -20,7 +20,7 @@ func TestVerifC01Block(t *testing.T) {
 	out.Linef("model c01-pq 1")
 	n := vN(500)
 	var curCase atomic.Int64
-	vC01Watchdog(out, &curCase)
+	defer vC01Watchdog(out, &curCase)()
 	for _, c := range vCases(n) {
 		curCase.Store(int64(c))
 		vC01Progress.Add(1)
